@@ -90,9 +90,33 @@ def reduce_state(ip, st, objval):
             r.rng[s] = st.rng[s]
         if s in st.sets:
             r.sets[s] = st.sets[s]
-    for f in st.facts:
-        if all((x in syms or x in ip.cparams.values()) for x in f.syms()):
-            r.facts.append(f)
+    # keep the facts connected to the object's symbols (transitively, so relations through intermediate
+    # symbols survive), bounded
+    cps = set(ip.cparams.values())
+    live = set(syms) | cps
+    pending = list(st.facts)
+    for _ in range(3):
+        rest = []
+        grew = False
+        for f in pending:
+            fs = f.syms()
+            if any(x in live and x not in cps for x in fs) or all(x in cps for x in fs):
+                if len(r.facts) < 80:
+                    r.facts.append(f)
+                for x in fs:
+                    if x not in live:
+                        live.add(x)
+                        grew = True
+            else:
+                rest.append(f)
+        pending = rest
+        if not grew:
+            break
+    for s in live:
+        if s in st.rng and s not in r.rng:
+            r.rng[s] = st.rng[s]
+        if s in st.sets and s not in r.sets:
+            r.sets[s] = st.sets[s]
     for x in ip.cparams.values():
         if x in st.rng:
             r.rng[x] = st.rng[x]
